@@ -473,6 +473,22 @@ class Engine(MemMixin, OpsMixin, ExecMixin):
             return out
         raise Abort("assume %r" % (f,))
 
+    def split_bool(self, st, v):
+        """case split on an abstract bool value: list of (state, python bool)"""
+        if isinstance(v, VRef):
+            v = self.load(st, v.cell, v.path)
+        if not isinstance(v, VBool):
+            f = ("sym", self.fresh("b"))
+        else:
+            f = v.f
+        d = self.bool_value(st, f)
+        if d is not None:
+            return [(st, d)]
+        s2 = st.fork()
+        out = [(s, True) for s in self.assume(st, f, True)]
+        out += [(s, False) for s in self.assume(s2, f, False)]
+        return out
+
     def bool_value(self, st, f):
         """True/False if decided in st, else None"""
         k = f[0]
@@ -561,6 +577,9 @@ class Engine(MemMixin, OpsMixin, ExecMixin):
         """for non-negative v: v = c*q + r, 0<=r<c; returns (q Lin, r Lin)"""
         if v_lin.is_const():
             return Lin.const(v_lin.c // c), Lin.const(v_lin.c % c)
+        if c > 0 and v_lin.c % c == 0 and all(k % c == 0 for k in v_lin.t.values()):
+            # exact division: every term is a multiple of c
+            return Lin({s: k // c for s, k in v_lin.t.items()}, v_lin.c // c), Lin.const(0)
         key = (v_lin.key(), c)
         m = st.divmemo.get(key)
         if m is None:
